@@ -531,6 +531,76 @@ def order_elimination_sites(model):
     return out
 
 
+def _s8_merged_column_order(program, res):
+    """the produced columns of an extend are declared in the order of its ops: two steps assign a, then b, then a again — the column a keeps the place
+    the first step gave it.  The merged dictionary therefore has to keep the first step's key order (overwriting values in place) and append only
+    the second step's new keys; filtering the re-assigned keys out of the first step and appending them moves them"""
+    f = program.func("data_ops_utils", "try_to_merge_ops")
+    res.analysed(f)
+    p1 = f.params()[0]
+    n = 0
+    for st in ast.walk(f.node):
+        if isinstance(st, ast.Assign) and len(st.targets) == 1 and isinstance(st.targets[0], ast.Name) and isinstance(st.value, ast.DictComp):
+            gen = st.value.generators[0]
+            if p1 in unparse(gen.iter):
+                n += 1
+                if gen.ifs:
+                    res.fail_at("C06-S8", f, "merged-ops-move-reassigned-column",
+                                f"`{unparse(st)[:90]}` drops the re-assigned keys from the first step's ops and the following update appends them: "
+                                f"d.extend({{'x': 'a + 1', 'y': 'b'}}).extend({{'x': 'c'}}) declares and returns a, b, c, y, x — step at a time a, b, c, x, y", st)
+                else:
+                    res.ok("C06-S8", "merged extend: the first step's keys keep their order, re-assigned values are replaced in place")
+    if n == 0:
+        # no comprehension over the first step's ops: copies (`ops1.copy()`, dict(ops1)) followed by update keep the order by construction
+        res.ok("C06-S8", "merged extend: built from a copy of the first step's ops", nontrivial=False)
+
+
+def _s7_delegation_arguments(program, model, res):
+    """a builder that skips a trivial intermediate node calls the same builder on the node below with its own arguments.  An argument that the
+    builder has already handed to a converting call (which walks it) must not be handed on raw: a one-shot iterable (`on=zip(ka, kb)`, a generator
+    of column names) is empty the second time, and the delegated step silently gets nothing"""
+    n = 0
+    for (m, r) in order_elimination_sites(model):
+        g = cfgmod.build(m.node)
+        rn = g.node_of(r)
+        params = [p_ for p_ in m.params() if p_ != "self"]
+        passed = {}
+        for a_ in list(r.value.args) + [kw.value for kw in r.value.keywords]:
+            if isinstance(a_, ast.Name) and a_.id in params:
+                passed[a_.id] = a_
+        for pname, node_ in passed.items():
+            n += 1
+            consumers = []
+            for nd in g.stmt_nodes(("stmt", "test")):
+                if nd.id == rn.id or not g.dominates(nd.id, rn.id):
+                    continue
+                root = nd.cond if nd.kind == "test" else nd.stmt
+                for c in ast.walk(root):
+                    if isinstance(c, ast.Call) and (dotted_name(c.func) or "") not in ("isinstance", "len", "type", "str", "repr", "id") \
+                            and any(isinstance(x, ast.Name) and x.id == pname for x in list(c.args) + [kw.value for kw in c.keywords]):
+                        consumers.append(c)
+                    elif isinstance(c, (ast.ListComp, ast.SetComp, ast.GeneratorExp, ast.DictComp)) and any(isinstance(g_.iter, ast.Name) and g_.iter.id == pname for g_ in c.generators):
+                        consumers.append(c)
+                if isinstance(root, ast.For) and isinstance(root.iter, ast.Name) and root.iter.id == pname:
+                    consumers.append(root)
+            # re-binding the parameter to a materialised value (p = list(p), p = [..]) before the hand-over makes it re-usable
+            rebound = any(isinstance(nd.stmt, ast.Assign) and any(isinstance(t, ast.Name) and t.id == pname for t in nd.stmt.targets)
+                          and isinstance(nd.stmt.value, (ast.List, ast.ListComp, ast.Call))
+                          and g.dominates(nd.id, rn.id) for nd in g.stmt_nodes(("stmt",)))
+            # `len(p)` on every path before: p is a sized container, not a one-shot iterator (which has no len and is refused there)
+            sized = any(g.dominates(nd.id, rn.id) and any(isinstance(c, ast.Call) and dotted_name(c.func) == "len" and c.args and isinstance(c.args[0], ast.Name) and c.args[0].id == pname
+                                                            for c in ast.walk(nd.cond if nd.kind == "test" else nd.stmt))
+                        for nd in g.stmt_nodes(("stmt", "test")) if nd.id != rn.id)
+            if consumers and not rebound and not sized:
+                res.fail_at("C06-S7", m, f"delegation-hands-on-consumed-argument:{m.name}:{pname}",
+                            f"{m.name} hands its parameter `{pname}` to `{unparse(consumers[0])[:60]}` and then, when it skips a trivial intermediate node, hands the same object "
+                            f"on to the node below: d.order_rows(['k']).natural_join(e, on=zip(['k'], ['k2'])) builds a join with on=[] (9 rows, every pair) while step at a "
+                            f"time, or without the order_rows, the same argument gives the keyed join (3 rows)", node_)
+            else:
+                res.ok("C06-S7", f"{m.name}: `{pname}` reaches the delegated call unread (or re-bound to a materialised value)", nontrivial=False)
+    res.expect_count("C06-S7", "raw parameters handed to a delegated builder call", n, 10)
+
+
 def _s6(program, model, res):
     """order_rows elimination is decided by the *next* builder call; it is sound only where that next step makes the incoming
     row order unobservable.  Every builder that skips a trivial intermediate node is classified (facts.ORDER_ROLE_OF_BUILDERS)."""
@@ -575,3 +645,7 @@ def run(program, res, tier):
     _s5(program, model, res)
     res.rule("C06-S6", "an un-limited order_rows is eliminated only before a step that makes the incoming row order unobservable")
     _s6(program, model, res)
+    res.rule("C06-S8", "a merged extend declares its columns in the order the two steps produce them")
+    _s8_merged_column_order(program, res)
+    res.rule("C06-S7", "a builder that skips an intermediate node hands its arguments on unread")
+    _s7_delegation_arguments(program, model, res)
